@@ -372,3 +372,50 @@ pub fn from_elem_empty_stub<T: Clone>(elem: T, _n: usize) -> Vec<T> {
 }
 /// `parallelize` (rayon): no-op
 pub fn parallelize_stub<T: Send, F: Fn(&mut [T], usize) + Send + Sync + Clone>(_v: &mut [T], _f: F) {}
+
+// ------------------------------------------------------------------------------------------------
+// blst as recorded oracles
+pub static mut FR_CHECK_CALLS: u32 = 0;
+pub static mut FR_CHECK_ANSWER: bool = false;
+pub static mut FR_CHECK_ARG: [u8; 32] = [0; 32];
+pub unsafe fn oracle_scalar_fr_check(a: *const blst::blst_scalar) -> bool {
+    let ans: bool = kani::any();
+    FR_CHECK_CALLS = FR_CHECK_CALLS + 1;
+    FR_CHECK_ANSWER = ans;
+    FR_CHECK_ARG = (*a).b;
+    ans
+}
+pub unsafe fn oracle_fr_from_uint64(ret: *mut blst::blst_fr, _a: *const u64) {
+    let l: [u64; 4] = kani::any();
+    (*ret).l = l;
+}
+pub static mut P1_UNCOMP_OK: bool = false;
+pub static mut P1_ON_CURVE: bool = false;
+pub static mut P1_IN_G1: bool = false;
+pub unsafe fn oracle_p1_uncompress(out: *mut blst::blst_p1_affine, _inp: *const u8) -> blst::BLST_ERROR {
+    let ok: bool = kani::any();
+    P1_UNCOMP_OK = ok;
+    let x: [u64; 6] = kani::any();
+    let y: [u64; 6] = kani::any();
+    (*out).x = blst::blst_fp { l: x };
+    (*out).y = blst::blst_fp { l: y };
+    if ok {
+        blst::BLST_ERROR::BLST_SUCCESS
+    } else {
+        blst::BLST_ERROR::BLST_BAD_ENCODING
+    }
+}
+pub unsafe fn oracle_p1_on_curve(_p: *const blst::blst_p1_affine) -> bool {
+    let b: bool = kani::any();
+    P1_ON_CURVE = b;
+    b
+}
+pub unsafe fn oracle_p1_in_g1(_p: *const blst::blst_p1_affine) -> bool {
+    let b: bool = kani::any();
+    P1_IN_G1 = b;
+    b
+}
+
+/// `zeroize::optimization_barrier` is an empty `asm!` statement (compiler barrier, no semantics); Kani
+/// does not support inline assembly. `blst_scalar` is zeroized on drop.
+pub fn noop_barrier<T: ?Sized>(_val: &T) {}
